@@ -677,6 +677,7 @@ constexpr void url_aggregator::clear_hostname() {
     return;
   }
   ADA_ASSERT_TRUE(has_authority());
+  host_type = DEFAULT;
 
   uint32_t hostname_length = components.host_end - components.host_start;
   uint32_t start = components.host_start;
